@@ -151,22 +151,8 @@ func init() {
 			}
 			c.Res.Bounds = map[string]any{"L": depth, "alphabet": c06Alpha, "configurations": len(cfgs)}
 			sw := &sweep{c: c, defs: defs, alpha: c06Alpha, depth: depth}
-			// the deepest layer only over the first 22 tokens (long spellings); every shorter argv over all 29
-			ext := map[string]bool{}
-			for _, t := range c06Alpha[22:] {
-				ext[t] = true
-			}
-			sw.filter = func(argv []string) bool {
-				if len(argv) < depth {
-					return true
-				}
-				for _, t := range argv {
-					if ext[t] {
-						return false
-					}
-				}
-				return true
-			}
+			// the deepest layer only over the first 22 tokens (long spellings); every shorter argv over all of them
+			sw.alpha, sw.ext = c06Alpha[:22], c06Alpha[22:]
 			sw.visit = func(def *ph.Def, argv []string) {
 				res := c.Res
 				pc := &parserCase{Check: "C06", Def: def, Env: envOf[def], Argv: argv}
